@@ -26,12 +26,15 @@ def admits_raw(cd, x):
     if k == 'CS':
         return admits_raw(cd[1], x)
     if k == 'WC':
-        for field, pa in cd[1:]:
+        for entry in cd[1:]:
+            field, pa = entry[0], entry[1]
             present = x.get(field) is not None
             if pa == 'P' and not present:
                 return False
             if pa == 'A' and present:
                 return False
+            if len(entry) > 2 and not admits_raw(entry[2], x[field]):
+                return False        # (field, 'P', c): present AND its value admitted by c
         return True
     if k == 'AND':
         return all(admits_raw(c, x) for c in cd[1:])
@@ -78,9 +81,14 @@ def to_pyasn1(cd):
     if k == 'CS':
         return C.ContainedSubtypeConstraint(to_pyasn1(cd[1]))
     if k == 'WC':
-        return C.WithComponentsConstraint(*[
-            (f, C.ComponentPresentConstraint() if pa == 'P' else C.ComponentAbsentConstraint())
-            for f, pa in cd[1:]])
+        def one(entry):
+            f, pa = entry[0], entry[1]
+            c = C.ComponentPresentConstraint() if pa == 'P' else C.ComponentAbsentConstraint()
+            if len(entry) > 2:
+                # WITH COMPONENTS {..., f (c) PRESENT}
+                c = C.ConstraintsIntersection(c, to_pyasn1(entry[2]))
+            return (f, c)
+        return C.WithComponentsConstraint(*[one(e) for e in cd[1:]])
     if k == 'AND':
         return C.ConstraintsIntersection(*[to_pyasn1(c) for c in cd[1:]])
     if k == 'OR':
@@ -104,7 +112,7 @@ def to_src(cd):
         return 'constraint.ContainedSubtypeConstraint(%s)' % to_src(cd[1])
     if k == 'WC':
         return 'constraint.WithComponentsConstraint(%s)' % ', '.join(
-            '(%r, constraint.Component%sConstraint())' % (f, 'Present' if pa == 'P' else 'Absent') for f, pa in cd[1:])
+            '(%r, constraint.Component%sConstraint())' % (e[0], 'Present' if e[1] == 'P' else 'Absent') for e in cd[1:])
     name = {'AND': 'ConstraintsIntersection', 'OR': 'ConstraintsUnion', 'NOT': 'ConstraintsExclusion'}[k]
     return 'constraint.%s(%s)' % (name, ', '.join(to_src(c) for c in cd[1:]))
 
@@ -118,5 +126,5 @@ def show(cd):
     if k == 'CS':
         return 'INCLUDES ' + show(cd[1])
     if k == 'WC':
-        return 'WITH COMPONENTS {%s}' % ', '.join('%s %s' % (f, 'PRESENT' if pa == 'P' else 'ABSENT') for f, pa in cd[1:])
+        return 'WITH COMPONENTS {%s}' % ', '.join('%s %s%s' % (e[0], ('(' + show(e[2]) + ') ') if len(e) > 2 else '', 'PRESENT' if e[1] == 'P' else 'ABSENT') for e in cd[1:])
     return '%s(%s)' % (k, ','.join(repr(x) for x in cd[1:]))
